@@ -129,12 +129,12 @@ func (c *comparer) compareBuilder(e expObject, b ast.Builder) {
 			c.fail("constant-for-free-field @ "+f.class, "builder %s: field %q (%s) is not fixed by the schema but is covered by a constructor constant instead of an option", who, name, f.class)
 		case len(opts) == 1:
 			if f.allowed == byOption|byConstant {
-				c.count("lenient:optional-or-nullable-constant-ref covered by option")
+				c.count("lenient:ref-to-nullable-constant covered by option")
 			}
 			c.compareOption(who, f, opts[0])
 		default:
 			if f.allowed == byOption|byConstant {
-				c.count("lenient:optional-or-nullable-constant-ref covered by constant")
+				c.count("lenient:ref-to-nullable-constant covered by constant")
 			}
 			c.compareConstant(who, f, consts[0])
 		}
